@@ -461,8 +461,16 @@ def dump(reader, idx, schema, rng=None, maxterms=40, columns=True, vectors=True,
                     obs.append({"kind": "chars", "f": f, "t": t, "list": cl})
                 if terminfo:
                     ti = reader.term_info(f, text)
+                    try:
+                        lenstats = all(getattr(r.codec(), "length_stats", True) for r, _ in reader.leaf_readers())
+                    except Exception:
+                        lenstats = False
                     obs.append({"kind": "terminfo", "f": f, "t": t, "df": int(ti.doc_frequency()), "tf": _scaled(ti.weight()),
-                                "minid": int(ti.min_id()), "maxid": int(ti.max_id()), "maxw": _scaled(ti.max_weight())})
+                                "minid": int(ti.min_id()), "maxid": int(ti.max_id()), "maxw": _scaled(ti.max_weight()),
+                                # (the shortest / longest field among the documents that have the term: what the
+                                # quality bounds of the length-normalising models are computed from)
+                                "minlen": int(ti.min_length()), "maxlen": int(ti.max_length()),
+                                "lenstats": bool(lenstats and getattr(fobj, "scorable", False))})
             guard("postings:%s" % f, post)
         # a term that no document contains
         guard("absent", lambda f=f: obs.append({"kind": "absent" if (f, u"cccc") not in reader else "flag", "f": f,
